@@ -1,0 +1,6 @@
+//go:build verif
+
+package node
+
+// VerifReportError exposes the parse error display for direct calls.
+func VerifReportError(err ParserError, line string) { reportError(err, line) }
